@@ -1398,6 +1398,13 @@ class H2Stream:
             return
 
         for n, v in headers:
+            if n == b':status' and v in (b'204', b'304'):
+                # Like responses to HEAD requests, these have no body
+                # whatever their content-length says (RFC 7230 Section
+                # 3.3.2, RFC 7232 Section 4.1).
+                self._expected_content_length = 0
+                return
+
             if n == b'content-length':
                 try:
                     self._expected_content_length = int(v, 10)
